@@ -28,8 +28,9 @@ import (
 )
 
 var (
-	out  *bufio.Writer
-	sess *engine.Session
+	out   *bufio.Writer
+	sess  *engine.Session
+	curOp int
 )
 
 func main() {
@@ -63,6 +64,7 @@ func main() {
 		}
 		fmt.Fprintf(out, "B %d\n", op.ID)
 		out.Flush()
+		curOp = op.ID
 		res := run(&op)
 		res.ID = op.ID
 		b, err := json.Marshal(res)
@@ -318,10 +320,20 @@ func opDump(op *proto.Op, res *proto.Res) error {
 			continue
 		}
 		seen[name] = true
-		td, err := selectAll(name)
-		if err != nil {
-			td.Err = err.Error()
-		}
+		// a table that cannot be read (error or panic) is reported as such;
+		// the oracle decides whether that table matters
+		td := func() (td *proto.TableDump) {
+			defer func() {
+				if r := recover(); r != nil {
+					td = &proto.TableDump{Name: name, Err: fmt.Sprintf("PANIC: %v [%s]", r, topFrame(string(debug.Stack())))}
+				}
+			}()
+			td, err := selectAll(name)
+			if err != nil {
+				td.Err = err.Error()
+			}
+			return td
+		}()
 		res.Tables = append(res.Tables, *td)
 	}
 	return nil
